@@ -3,6 +3,7 @@ package main
 import (
 	"fmt"
 	"go/token"
+	"go/types"
 	"math/bits"
 	"sort"
 	"strings"
@@ -49,6 +50,9 @@ func ruleClosedFlags(w *World, r *RuleResult) {
 		f := w.Funcs[name]
 		var bad []string
 		n := 0
+		// a function out of which no Condition value can flow (it renders or tests one): whatever it
+		// computes on the way cannot become a returned flag
+		sink := w.condSink(f, 0)
 		for _, b := range f.Blocks {
 			for _, in := range b.Instrs {
 				v, ok := in.(ssa.Value)
@@ -56,14 +60,15 @@ func ruleClosedFlags(w *World, r *RuleResult) {
 					continue
 				}
 				n++
+				if sink {
+					continue
+				}
 				switch x := in.(type) {
 				case *ssa.BinOp:
 					switch x.Op {
 					case token.OR, token.AND, token.AND_NOT, token.XOR:
 					case token.SHL:
-						if name != "(Condition).String" {
-							bad = append(bad, "shift at "+w.instrPos(in))
-						}
+						bad = append(bad, "shift at "+w.instrPos(in))
 					default:
 						bad = append(bad, "operator "+x.Op.String()+" at "+w.instrPos(in))
 					}
@@ -183,7 +188,7 @@ func ruleFlagImplications(w *World, r *RuleResult) {
 		if strings.HasPrefix(name, "(Condition).") && name != "(Condition).negateOverflowFlags" || strings.HasPrefix(name, "init") {
 			continue
 		}
-		if inexactByDefinition[name] != "" && name != "(*Context).Exp" {
+		if w.inexactByDef(f) != "" && w.ownerIn(f, []string{"(*Context).Exp"}) == "" {
 			continue // transcendental: Inexact by definition, outside the arithmetic kernel
 		}
 		idx := map[string]int{}
@@ -425,6 +430,19 @@ func ruleNoFlagDropped(w *World, r *RuleResult) {
 						continue // a literal flag set replaces the flags on purpose (Quantize's InvalidOperation)
 					}
 					if gc, isCall := rt.Results[fi].(*ssa.Extract); isCall {
+						if cc, ok := gc.Tuple.(*ssa.Call); ok && !w.isGoErrorCall(cc) && w.isCondTransformer(callee(cc)) {
+							// a helper that returns the Condition it is handed (set NaN, goError(res)): a literal
+							// argument replaces the flags on purpose, as goError(<literal>) does
+							lit := false
+							for i, p := range callee(cc).Params {
+								if typeIs(p.Type(), apdPath, "Condition") && !isPointer(p.Type()) && i < len(cc.Common().Args) {
+									_, lit = condBits(cc.Common().Args[i])
+								}
+							}
+							if lit {
+								continue
+							}
+						}
 						if cc, ok := gc.Tuple.(*ssa.Call); ok && w.isGoErrorCall(cc) {
 							flagsArg := cc.Common().Args[len(cc.Common().Args)-1]
 							if w.calleeName(cc) == "(Condition).GoError" {
@@ -562,6 +580,28 @@ func ruleDivisionGuards(w *World, r *RuleResult) {
 						missing = append(missing, want)
 					}
 				}
+				// a helper that only delivers the condition ("set NaN and raise it") is guarded by its callers
+				if len(missing) > 0 && (f.Object() == nil || !f.Object().Exported()) && !w.addressTaken(f) {
+					if sites := w.allCallsTo(name); len(sites) > 0 {
+						all := true
+						for _, s := range sites {
+							sf := w.guardFacts(s.Parent(), s.Block())
+							for _, want := range need[flag] {
+								if !facts[want] && !sf[want] {
+									all = false
+								}
+							}
+							if raised[w.shortName(s.Parent())] == nil {
+								raised[w.shortName(s.Parent())] = map[string]bool{}
+							}
+							raised[w.shortName(s.Parent())][flag] = true
+						}
+						if all {
+							r.ok(key, w.instrPos(u.site), fmt.Sprintf("raised in an unexported helper, each of whose %d call sites is under %s", len(sites), strings.Join(need[flag], " ∧ ")), true)
+							continue
+						}
+					}
+				}
 				if len(missing) == 0 {
 					r.ok(key, w.instrPos(u.site), "raised under "+strings.Join(need[flag], " ∧ "), true)
 				} else {
@@ -659,6 +699,64 @@ func (w *World) isCondTransformer(g *ssa.Function) bool {
 		}
 		if !derives(w.exprOf(g, rt.Results[ri]), 0) {
 			return false
+		}
+	}
+	return true
+}
+
+// condSink: no Condition computed in f can leave it: f has no Condition result, stores no Condition outside
+// its own locals, and hands Conditions only to functions of the package that are sinks themselves (or to
+// other packages, which have no way to hand one back).
+func (w *World) condSink(f *ssa.Function, depth int) bool {
+	if f == nil || depth > 3 || len(f.Blocks) == 0 {
+		return false
+	}
+	isCond := func(t types.Type) bool {
+		if p, ok := t.Underlying().(*types.Pointer); ok {
+			t = p.Elem()
+		}
+		return typeIs(t, apdPath, "Condition")
+	}
+	res := f.Signature.Results()
+	for i := 0; i < res.Len(); i++ {
+		if isCond(res.At(i).Type()) {
+			return false
+		}
+	}
+	for _, p := range f.Params {
+		if isPointer(p.Type()) && isCond(p.Type()) {
+			return false
+		}
+	}
+	for _, b := range f.Blocks {
+		for _, in := range b.Instrs {
+			switch x := in.(type) {
+			case *ssa.Store:
+				if isCond(x.Val.Type()) {
+					if _, local := basePtr(x.Addr).(*ssa.Alloc); !local {
+						return false
+					}
+				}
+			case ssa.CallInstruction:
+				passes := false
+				for _, a := range x.Common().Args {
+					if isCond(a.Type()) {
+						passes = true
+					}
+				}
+				if !passes {
+					continue
+				}
+				g := callee(x)
+				if g == nil {
+					return false
+				}
+				if w.inPkg(g) && g != f && !w.condSink(g, depth+1) {
+					return false
+				}
+			case *ssa.MakeClosure:
+				return false
+			}
 		}
 	}
 	return true
